@@ -31,7 +31,15 @@ impl Term for f64 {
         TermKind::Literal
     }
     fn lexical_form(&self) -> Option<MownStr> {
-        Some(MownStr::from(format!("{}", self)))
+        // xsd:double spells the non-finite values "NaN", "INF" and "-INF"
+        // (Rust's Display would give "inf" and "-inf")
+        Some(if self.is_nan() {
+            MownStr::from("NaN")
+        } else if self.is_infinite() {
+            MownStr::from(if *self > 0.0 { "INF" } else { "-INF" })
+        } else {
+            MownStr::from(format!("{}", self))
+        })
     }
     fn datatype(&self) -> Option<IriRef<MownStr>> {
         Some(IriRef::new_unchecked(MownStr::from_ref(&XSD_DOUBLE)))
